@@ -919,8 +919,9 @@ func (l *ChainedSeqContext1) encode() []byte {
 
 		pos := 2 + 2*chainedSeqRuleCount
 		for _, rule := range rules {
+			o := offs16(pos) // a rule behind 64 KiB of rules cannot be addressed
 			buf = append(buf,
-				byte(pos>>8), byte(pos),
+				byte(o>>8), byte(o),
 			)
 			pos += 2 + 2*len(rule.Backtrack)
 			pos += 2 + 2*len(rule.Input)
